@@ -85,7 +85,7 @@ class Store(base.BaseResource):
         get = BoundClass(StoreGet)
 
     def _do_put(self, event: StorePut) -> bool:
-        if len(self.items) < self._capacity:
+        if len(self.items) + 1 <= self._capacity:
             self.items.append(event.item)
             event.succeed()
             return True
@@ -114,7 +114,7 @@ class PriorityStore(Store):
     """Use heap and PriorityItem to maintain order of the item list """
 
     def _do_put(self, event: StorePut) -> bool:
-        if len(self.items) < self._capacity:
+        if len(self.items) + 1 <= self._capacity:
             heappush(self.items, event.item)
             event.succeed()
             return True
